@@ -14,8 +14,14 @@ from lib.pool import run_cases
 from harness import c02_gen as G
 
 
+import re as _re
+_COMMENT = _re.compile(r'/\*.*?\*/', _re.S)
+
+
 def norm_text(s):
-    return ' '.join(s.split())
+    """text without comments, white space normalised (also around the punctuation where it is insignificant)"""
+    s = ' '.join(_COMMENT.sub(' ', s).split())
+    return _re.sub(r'\s*([(),:/])\s*', r'\1', s)
 
 
 def proj_value(pv):
@@ -23,7 +29,7 @@ def proj_value(pv):
     for item in pv:
         t = item.type
         try:
-            v = item.cssText
+            v = norm_text(item.cssText)
         except Exception as e:          # noqa
             v = 'ERR %r' % (e,)
         out.append((t, v))
@@ -84,7 +90,7 @@ def proj_rule(r, with_comments=True):
     if t == r.NAMESPACE_RULE:
         return ('namespace', r.prefix, r.namespaceURI)
     if t == r.PAGE_RULE:
-        return ('page', r.selectorText, proj_decls(r.style, with_comments),
+        return ('page', norm_text(r.selectorText), proj_decls(r.style, with_comments),
                 [(m.margin, proj_decls(m.style, with_comments)) for m in r.cssRules])
     if t == r.FONT_FACE_RULE:
         return ('fontface', proj_decls(r.style, with_comments))
@@ -104,6 +110,21 @@ def project(sheet, with_comments=True):
     return [x for x in (proj_rule(r, with_comments) for r in sheet.cssRules) if x is not None]
 
 
+_SIMPLE_ESC = _re.compile(r'\\([^0-9a-fA-F\n\r\f])')
+
+
+def unescape_names(p):
+    """projection with simple escapes (backslash + non-hex character) resolved — only used to recognise the region of
+    known finding C02-simple-escapes-kept"""
+    if isinstance(p, list):
+        return [unescape_names(x) for x in p]
+    if isinstance(p, tuple):
+        return tuple(unescape_names(x) for x in p)
+    if isinstance(p, str):
+        return _SIMPLE_ESC.sub(r'\1', p)
+    return p
+
+
 def strip_comments(p):
     """remove comment entries from a projection (for comparing spellings that differ in comments)"""
     if isinstance(p, list):
@@ -119,7 +140,7 @@ def summary(p):
     for r in p:
         k = r[0]
         if k == 'style':
-            out.append(('style', [tuple(s[1]) for s in r[1]],
+            out.append(('style', len(r[1]),
                         [(d[1], len([c for c in d[2] if c[0] not in ('operator', 'S', 'CHAR', 'COMMENT') or False]), bool(d[3]))
                          for d in r[2] if d[0] == 'decl']))
         elif k == 'media':
@@ -146,7 +167,7 @@ def expected_summary(ast):
     out = []
     for e in G.expect(ast):
         if e[0] == 'style':
-            out.append(('style', [tuple(s) for s in e[1]], [(n, k, imp) for n, k, imp in e[2]]))
+            out.append(('style', len(e[1]), [(n, k, imp) for n, k, imp in e[2]]))
         elif e[0] == 'media':
             out.append(('media', e[1], expected_summary_from(e[2])))
         elif e[0] == 'page':
@@ -160,7 +181,7 @@ def expected_summary_from(exp):
     out = []
     for e in exp:
         if e[0] == 'style':
-            out.append(('style', [tuple(s) for s in e[1]], [(n, k, imp) for n, k, imp in e[2]]))
+            out.append(('style', len(e[1]), [(n, k, imp) for n, k, imp in e[2]]))
         elif e[0] == 'media':
             out.append(('media', e[1], expected_summary_from(e[2])))
         elif e[0] == 'page':
@@ -168,6 +189,9 @@ def expected_summary_from(exp):
         else:
             out.append(e)
     return out
+
+
+LEVELS = [5, 5, 3, 2, 4, 1]     # the first ones are used by the quick tier
 
 
 def work(case):
@@ -188,7 +212,7 @@ def work(case):
 class C02(Check):
     id = 'C02'
     props_module = 'CssVerif.Props.C02'
-    driver_exe = None
+    driver_exe = 'drv_c02'
     sources = ('cssutils/css/cssstylesheet.py', 'cssutils/css/cssstylerule.py', 'cssutils/css/selector.py',
                'cssutils/css/cssstyledeclaration.py', 'cssutils/css/property.py', 'cssutils/css/value.py',
                'cssutils/css/cssmediarule.py', 'cssutils/css/cssimportrule.py', 'cssutils/css/cssnamespacerule.py',
@@ -198,8 +222,33 @@ class C02(Check):
             'spellings (white space, comments, case of case-insensitive parts, quote style, escapes of name characters) x '
             'parser options; non-trivial = distinct (abstract sheet, spelling) whose text differs from the canonical one')
 
+    trusted_base = (
+        'Model/Normalize.lean: hand model of cssutils.helper.normalize (simple-escape removal + ASCII lower-casing), tied '
+        'to the code by differential testing over generated strings each run',
+        'the structure-level clauses (rules / selectors / declarations recovered, comments-off, validate-off) are decided '
+        'on the implementation by exploration until the structure kernel theorem is merged',
+    )
+    assumptions = ('str.lower() = ASCII lower-casing on the generated alphabets (non-ASCII characters used are caseless)',)
+
     def run(self, ctx):
+        ctx.phase(self.corr_normalize, ctx)
         ctx.phase(self.oracle, ctx)
+
+    def corr_normalize(self, ctx):
+        from cssutils import helper
+        from lib.framework import enc
+        rng = ctx.sub_rng('normalize')
+        alpha = ['\\', '\\', 'a', 'f', 'g', 'Z', 'A', 'F', 'G', '0', '9', '-', '_', ' ', '\n', '(', 'x', 'Q', '€', '中', '"', ':']
+        texts = ['', '\\', 'c\\olor', '\\color', 'C\\4f lor', 'a\\', '\\\\', '\\\\a', '\\\\\\g']
+        for _ in range(ctx.n(4000, 100000)):
+            texts.append(''.join(rng.choice(alpha) for _ in range(rng.randint(0, 9))))
+        out = ctx.driver(['normalize %s' % enc(t) for t in texts]) if ctx.model_ok else [None] * len(texts)
+        for t, m in zip(texts, out):
+            got = enc(helper.normalize(t))
+            ctx.case(key=('normalize', t), nontrivial=('\\' in t or t.lower() != t), kind='normalize',
+                     sample={'normalize': t, 'impl': helper.normalize(t)})
+            if m is not None and m != got:
+                ctx.disagree('helper.normalize', {'text': t}, got, m)
 
     def oracle(self, ctx):
         rng = ctx.sub_rng('c02')
@@ -215,7 +264,7 @@ class C02(Check):
             for j in range(nsp):
                 s = rng.getrandbits(32)
                 seeds.append(s)
-                lvl = [1, 2, 3, 4, 5, 5][j % 6]
+                lvl = LEVELS[j % 6]
                 texts.append((G.render(ast, G.Spelling(random.Random(s), lvl)), True, True))
             texts.append((canon, False, True))      # comments off
             texts.append((canon, True, False))      # validation off
@@ -243,7 +292,7 @@ class C02(Check):
                             {'dom_summary': first_diff(got, want)})
             # (1) every spelling gives the same DOM
             for (text, comments, validate), o, j in zip(case['texts'][1:], outs[1:], range(len(outs) - 1)):
-                kind = 'spelling-l%d' % ([1, 2, 3, 4, 5, 5][j % 6]) if j < len(case['seeds']) else ('comments-off' if not comments else 'validate-off')
+                kind = 'spelling-l%d' % (LEVELS[j % 6]) if j < len(case['seeds']) else ('comments-off' if not comments else 'validate-off')
                 ctx.case(key=(kind, text, comments, validate), nontrivial=(text != canon_text or not comments or not validate), kind=kind,
                          sample={'spelling': text[:300]} if j < 2 else None)
                 if o[0] != 'ok':
@@ -251,7 +300,10 @@ class C02(Check):
                                 {'exception': o[1]})
                     continue
                 a, b = strip_comments(base[1]), strip_comments(o[1])
-                if a != b:
+                if a != b and unescape_names(a) == unescape_names(b):
+                    ctx.violate('same DOM under CSS escapes of ordinary name characters', {'text': text, 'canonical': canon_text},
+                                {'first_difference': first_diff(b, a)}, known='C02-simple-escapes-kept')
+                elif a != b:
                     clause = ('the result is the same for every way of writing the sheet (white space, comments, case of '
                               'case-insensitive parts, quote style, escapes of name characters)')
                     if not validate:
@@ -263,6 +315,11 @@ class C02(Check):
                 if not comments and o[1] != strip_comments(base[1]):
                     ctx.violate('disabling comment parsing removes exactly the comments', {'text': text},
                                 {'first_difference': first_diff(o[1], strip_comments(base[1]))})
+
+    def known(self, ctx, finding):
+        w = finding['witness']['data']
+        a = work({'texts': [(w['canonical'], True, True), (w['text'], True, True)]})
+        return a[0][0] == 'ok' and a[1][0] == 'ok' and a[0][1] != a[1][1]
 
     def replay(self, ctx, data):
         import cssutils
